@@ -375,3 +375,34 @@ Proof.
   destruct (parse_response_chunked cs) as [[r br]|e|w], (parse_response_flat (concat cs)) as [[r' l]|e'|w'];
     cbn [orel] in R; try tauto; split; try discriminate; try reflexivity; congruence.
 Qed.
+
+(* a response body (Content-Length or chunked) is never longer than the input: allocation follows the bytes supplied, not
+   the claimed Content-Length or chunk size *)
+Lemma chunk_loop_flat_alloc : forall fuel l acc body rest,
+  chunk_loop_flat fuel l acc = Ok (body, rest) -> (length body + length rest <= length acc + length l)%nat.
+Proof.
+  induction fuel as [|f IH]; intros l acc body rest H; [discriminate|]. cbn [chunk_loop_flat] in H.
+  destruct (parse_chunk_flat l) as [[c l1]|e|w] eqn:E; try discriminate.
+  apply parse_chunk_flat_progress in E as [_ E]. destruct c as [d|].
+  - apply IH in H. rewrite app_length in H. cbn [length] in E. lia.
+  - injection H as <- <-. cbn [length] in E. lia.
+Qed.
+
+Theorem parse_response_flat_alloc l r rest : parse_response_flat l = Ok (r, rest) ->
+  (length (s_body r) + length rest <= length l)%nat.
+Proof.
+  unfold parse_response_flat.
+  pose proof (read_until_flat_length LF l) as HL.
+  destruct (read_until_flat LF l) as [line l1]. cbn [fst snd] in HL.
+  destruct (parse_status_line line) as [[version status]|]; [|discriminate].
+  destruct (rheader_loop_flat (S (length l1)) l1 []) as [[hs l2]|e|w] eqn:EH; try discriminate.
+  apply rheader_loop_flat_rest in EH.
+  destruct (match hget (HKnown H_TransferEncoding) hs with Some te => beq te TE_chunked | None => false end).
+  - destruct (chunk_loop_flat (S (length l2)) l2 []) as [[body l3]|e|w] eqn:EC; try discriminate.
+    apply chunk_loop_flat_alloc in EC. intros [= <- <-]. cbn [s_body length] in *. lia.
+  - destruct (hget (HKnown H_ContentLength) hs).
+    + destruct (parse_usize b); [|discriminate].
+      destruct (read_exact_flat_N n l2) as [[d r3]|] eqn:ER; [|discriminate].
+      apply read_exact_flat_N_length in ER. intros [= <- <-]. cbn [s_body length] in *. lia.
+    + intros [= <- <-]. cbn [s_body length] in *. lia.
+Qed.
